@@ -20,7 +20,15 @@ def main(argv):
     pipe.assert_repo()
     prop = importlib.import_module('pipesim.props.' + target)
     if argv[1] == '--replay':
+        import json
+        flags = json.load(open(argv[2])).get('python_flags') or []
+        if '-O' in flags and not sys.flags.optimize:
+            # the violation was found in an interpreter started with -O (assert statements compiled away): replay it the same way
+            os.execv(sys.executable, [sys.executable, '-O', '-W', 'ignore', '-c', 'import sys; from pipesim.cli import main; sys.exit(main(sys.argv[1:]))'] + list(argv))
         return runner.replay(prop, argv[2])
+    if argv[1] == '--opt-batch':
+        # internal: a slice of the run indices executed by an interpreter started with -O; prints one JSON line
+        return runner.opt_batch(prop, argv[2], int(os.environ.get('VERIF_SEED', '20260926')), int(argv[3]), int(argv[4]), float(argv[5]))
     tier = argv[1]                       # the registered commands name their tier; VERIF_TIER is only a fallback
     if tier not in ('quick', 'thorough'):
         tier = os.environ.get('VERIF_TIER', 'quick')
